@@ -1,6 +1,7 @@
 """C30 — the reported result schema describes the returned rows (SchemaTrace.tla)."""
 import json, os, random
 import sqlcheck, sqlloop, sqlprop, vlib
+import typing_sub                      # X04 "Typing" sub-model (checks/typing_sub.py)
 LEVEL = "model_checking"
 CFGS = [sqlprop.cfg("mem1"), sqlprop.cfg("mem3", batches=3), sqlprop.cfg("pq_2f_rg2", layout="parquet", files=2, rg=2)]
 FAMS = ["general", "agg", "cjoins", "setop", "cte", "order", "subq", "values", "gsets"]
@@ -57,9 +58,13 @@ def run(ctx):
     sqlcheck.finish_cov(ctx, "Every corpus statement that plans and executes (memory single/multi batch, Parquet) records the schema its result reports, "
                              "its physical plan's schema and every returned batch's schema; SchemaTrace.tla requires equal column count, names and types. "
                              "The Flight GetSchema half of the property is covered by C34.")
+    typing_sub.run_sub(ctx)            # ADDS distinct_nontrivial / evaluations / tlc stats; own keys are typing_*
+    ctx.set("rule", ctx.cov["rule"] + " + " + ctx.cov.get("typing_rule", ""))
 
 
 def replay(ctx, obj):
+    if obj["case"].get("kind") == typing_sub.NAME:
+        return typing_sub.replay_sub(ctx, obj)
     c = obj["case"]["case"]; cfg = obj["case"]["cfg"]
     outs = sqlloop.run_cases(ctx, [c], [cfg], "replay")
     rej, _ = judge(ctx, [c], outs, "replay")
@@ -79,4 +84,4 @@ def selftest(ctx):
             m["schema"][0][1] = "Int32" if m["schema"][0][1] != "Int32" else "Int64"; n += 1
     r1, _ = judge(ctx, cases, outs, "st1")
     print(f"selftest: {n} reported types corrupted; rejects {len(r0)} -> {len(r1)}")
-    return 0 if n and len(r1) >= n else 1
+    return (0 if n and len(r1) >= n else 1) or typing_sub.selftest_sub(ctx)
